@@ -1773,6 +1773,10 @@ func init() {
 				}
 			}
 			progs := []string{
+				// masks: a view of a masked tensor is returned to the pool while the parent lives; later pooled tensors build masks
+				"n0:4x2,k0,v01,R1,K2:3x2,K3:2x2,B",
+				"n0:3x2,k0,c01,R0,K2:3x2,w2",
+				"n0:4x2,k0,v01,z12,R1,K3:3x2,R2,K4:3x2",
 				"n0:2x3,n1:2x3,a012,B,n3:2x3",
 				"n0:2x3,n1:2x3,n2:6,U012,B,n3:5x7,a014",
 				"n0:2x3,n1:2x3,n2:3x2,I012,B,n3:4x4",
